@@ -122,16 +122,16 @@ def binop(f: Callable[[Expr, Expr], Expr], a: Val, b: Val) -> Val:
     if isinstance(a2, Sc) and isinstance(b2, Sc):
         return Sc(_sel_lift2(f, a2.e, b2.e))
     if isinstance(a2, Arr) and isinstance(b2, Sc):
-        return Arr(a2.axes, _sel_lift2(f, a2.elem, b2.e), "nd")
+        return _flat_like(Arr(a2.axes, _sel_lift2(f, a2.elem, b2.e), "nd"), a2)
     if isinstance(a2, Sc) and isinstance(b2, Arr):
-        return Arr(b2.axes, _sel_lift2(f, a2.e, b2.elem), "nd")
+        return _flat_like(Arr(b2.axes, _sel_lift2(f, a2.e, b2.elem), "nd"), b2)
     if isinstance(a2, Arr) and isinstance(b2, Arr):
         if a2 is b2 or a2.uid == b2.uid:
             pass
         b3 = b2
         # same ivar names in both operands refer to the same axis only when sizes agree; _align handles it
         axes, ea, eb = _align(a2, b3)
-        return Arr(axes, _sel_lift2(f, ea, eb), "nd")
+        return _flat_like(Arr(axes, _sel_lift2(f, ea, eb), "nd"), a2, b3)
     if isinstance(a, Unknown) or isinstance(b, Unknown) or a2 is None or b2 is None:
         return Unknown("binop", (generic_elem(a), generic_elem(b)))
     return Unknown("binop", (generic_elem(a), generic_elem(b)))
@@ -146,10 +146,20 @@ def unop(f: Callable[[Expr], Expr], a: Val) -> Val:
     if isinstance(a2, Sc):
         return Sc(_sel_lift1(f, a2.e))
     if isinstance(a2, Arr):
-        return Arr(a2.axes, _sel_lift1(f, a2.elem), "nd")
+        return _flat_like(Arr(a2.axes, _sel_lift1(f, a2.elem), "nd"), a2)
     if isinstance(a, Bag):
         return Bag(f(a.elem), a.size, False, a.src)
     return Unknown("unop", (generic_elem(a),))
+
+
+def _flat_like(out: Arr, *srcs) -> Arr:
+    """an element-wise result of flattened multi-axis arrays is flattened the same way"""
+    flags = [getattr(x, "flat", None) for x in srcs if isinstance(x, Arr)]
+    flags = [f for f in flags if f is not None]
+    if flags and all(f == flags[0] for f in flags) and all(
+            len(x.axes) == len(out.axes) for x in srcs if isinstance(x, Arr) and getattr(x, "flat", None)):
+        out.flat = flags[0]
+    return out
 
 
 def densify(v: Val) -> Val:
